@@ -32,7 +32,7 @@ func Profile() *world.Profile {
 		Envs:    []int{1, 2},
 		MaxActs: 4, NextMax: 3, RetW: []int{3, 2, 1},
 		PanicPm: 120, MissingPm: 120, BadStatus: 40, WFaultPm: 40, CancelPm: 150, DeadlinePm: 100, FaultFree: 300,
-		TwinMethodPm: 300, WrapperPm: 300, RegVariantsPm: 250, AutoHeadPm: 300, BeforesPm: 200,
+		TwinMethodPm: 300, WrapperPm: 300, RegVariantsPm: 250, AutoHeadPm: 300, BeforesPm: 200, Nested: true,
 		MinTasks: 1, MaxTasks: 3, MinReqs: 2, MaxReqs: 6,
 		HotPm: 200, HostilePm: 120,
 		Methods: []string{"GET", "HEAD", "POST"}, MethodW: []int{5, 2, 1},
@@ -45,7 +45,7 @@ func Profile() *world.Profile {
 	}
 	p.Ops = make([]int, world.NumOps)
 	for i, w := range map[int]int{world.OpYield: 2, world.OpWriteHeader: 2, world.OpWrite: 2, world.OpFlush: 1, world.OpNext: 5, world.OpNextSwallow: 1,
-		world.OpCancel: 2, world.OpSetHeader: 1, world.OpStatus: 1, world.OpBefore: 1, world.OpReplaceCtx: 1, world.OpExpireCtx: 1, world.OpMapOwnWriter: 1, world.OpRedirect: 1, world.OpHTTPError: 1, world.OpCopy: 2, world.OpMapRH: 1, world.OpCookie: 1} {
+		world.OpCancel: 2, world.OpSetHeader: 1, world.OpStatus: 1, world.OpBefore: 1, world.OpReplaceCtx: 1, world.OpExpireCtx: 1, world.OpMapOwnWriter: 1, world.OpRedirect: 1, world.OpHTTPError: 1, world.OpCopy: 2, world.OpMapRH: 1, world.OpCookie: 1, world.OpNestedServe: 1} {
 		p.Ops[i] = w
 	}
 	return p
@@ -87,7 +87,13 @@ func (Engine) Run(t *tape.Tape, o eng.Opts) *eng.Result {
 	for _, l := range reqs {
 		all = append(all, l...)
 	}
-	w := world.Build(setup, all, world.BuildOpts{})
+	build := append([]*world.Req{}, all...)
+	for _, q := range all {
+		if q.Sub != nil {
+			build = append(build, q.Sub)
+		}
+	}
+	w := world.Build(setup, build, world.BuildOpts{})
 
 	n := len(reqs)
 	cur := make([]int, n)
